@@ -30,6 +30,8 @@ TRUSTED_BASE = [
     "PbEq/PbGe/PbLe(args, k) read as Sum(If(b, w, 0)) ==/>=/<= k when k is symbolic",
     "recording ghosts for xlsxwriter / matplotlib / pandas / files opened for writing: the libraries write and draw what they are told (the real ones are run natively on sampled inputs)",
     "Python ints and z3 Int are both mathematical integers; int(a/b) and true division computed on exact rationals; uuid values never repeat; hash() of z3 ASTs treated as injective",
+    "calendar values: under the engine datetime.timedelta / datetime are integers of microseconds answering the classes' public API (psvc/timeabs.py); that the real classes implement exactly this arithmetic is assumed (natively the real classes are used)",
+    "quantified queries the solvers leave open are split over the values of their Boolean unknowns (at most six) and decided case by case",
     "loop-independence rule (psvc/foreach.py): a syntactic sufficient condition, with the lifting of element-wise obligations to every collection length argued on paper, not discharged by a solver",
     "z3 behaves the same on alpha-equivalent constraint systems (C14) and is sound within the selected logic (C15)",
     "specifications (meaning functions) are a reading of the property statements and docs/*.md; checked against the repository's own tests by the runtime monitor (selftest/monitor_result.jsonl)",
